@@ -9,7 +9,32 @@ use crate::comp::key;
 use crate::peaks::{parse_frac, show_peaks};
 use crate::util::guarded;
 
+/// `svec` / `smap`: the same composition reached with a STALE mass memo — built from other counts, `fmass()`, then every
+/// count overwritten through the public `composition` field (which no method guards).  Pattern generation is a function
+/// of the contents.
 pub fn build_comp(pairs: &str, form: &str) -> Option<ChemicalComposition<'static>> {
+    if form == "svec" || form == "smap" {
+        let target = build_comp(pairs, &form[1..])?;
+        let mut c = target.clone();
+        let keys: Vec<_> = c.iter().map(|(k, _)| *k).collect();
+        for k in keys.iter() {
+            c.set(*k, 1);
+        }
+        let _ = c.fmass();
+        match (&mut c, &target) {
+            (ChemicalComposition::Vec(v), _) => {
+                for e in v.composition.iter_mut() {
+                    e.1 = target.get(&e.0);
+                }
+            }
+            (ChemicalComposition::Map(m), _) => {
+                for (k, v) in m.composition.iter_mut() {
+                    *v = target.get(k);
+                }
+            }
+        }
+        return Some(c);
+    }
     let mut items = Vec::new();
     if pairs != "-" {
         for kv in pairs.split(',') {
